@@ -1,4 +1,5 @@
 import SigHook.Props.C10
+import SigHook.Model.Skel
 /-!
 # C09 — Signal iterators never lose a signal or a wake-up
 
@@ -560,5 +561,14 @@ example : GoodScripts 1 .A [[.deliver 10], [.wait, .pending]] := by
     match t, ht, h with
     | 0, _, h => simp at h; subst h; exact ⟨by intro c hc; simp at hc; subst hc; rfl, by intro sg hs; simp at hs; subst hs; decide⟩
     | (n + 2), _, h => simp at h
+
+
+/-- **C09.scan_after_drain_skeleton** — tie to the source (regenerated): `pending()` drains the
+self-pipe and only then hands out the scanner; `poll_signal` itself never drains
+(a drain between the callback's "readable" and the scan would be harmless, one after the scan
+would lose the wake-up for signals that arrived in between). -/
+theorem C09_scan_after_drain_skeleton :
+    skelOf backendFile "pending" = ["flush"] ∧ ¬ (skelOf backendFile "poll_signal").contains "flush" ∧
+    skelOf backendFile "poll_pending" = ["is_closed", "has_signals", "pending"] := by decide
 
 end SigHook.Iter
